@@ -322,7 +322,7 @@ class Conversation:
                       % (n, [v.shape for v in prob.variables()]), "variables")
             return
         x = xs[0]
-        self.requests[k] = (prob, x)
+        self.requests[k] = (prob, x, others)
         self.stats["requests_checked"] += 1
         # booleans
         want = expected_bools(op, self.soft)
@@ -384,6 +384,11 @@ class Conversation:
         for v in prob.variables():
             v.save_value(None)
 
+    def set_aux(self, others, z):
+        """robust target: give the auxiliary 'minimum DCF' variable a value that satisfies its sample rows at z"""
+        if others and self.samples is not None:
+            others[0].save_value(np.array([float(min(-s @ np.asarray(z, float) for s in self.samples)) - 1.0]))
+
     # ---- judging one answer
     def check_result(self, op, res, rec, fault, tag, bools):
         ftol, otol = self.tols()
@@ -401,9 +406,10 @@ class Conversation:
                     k = rec.get("call") if rec else None
                     cv = None
                     if k in self.requests:
-                        prob, xv = self.requests[k]
+                        prob, xv, oth = self.requests[k]
                         try:
                             xv.save_value(np.asarray(_w, float))
+                            self.set_aux(oth, _w)
                             cv = max([float(np.max(np.atleast_1d(c.violation()), initial=0)) for c in prob.constraints] or [0.0])
                         except Exception:
                             cv = None
@@ -485,9 +491,10 @@ class Conversation:
             # otherwise EAO's translation lost or distorted something.
             k = rec.get("call") if rec else None
             if k in self.requests:
-                prob, xv = self.requests[k]
+                prob, xv, oth = self.requests[k]
                 try:
                     xv.save_value(np.asarray(rx, float))
+                    self.set_aux(oth, rx)
                     cv = max([float(np.max(np.atleast_1d(c.violation()), initial=0)) for c in prob.constraints] or [0.0])
                     ov = float(prob.objective.value)
                 except Exception:
